@@ -227,6 +227,19 @@ pub fn build(p: &P) -> Cmd {
             *slot.lock().unwrap() = Some(Box::new(move || h.abort()));
             cmd
         }
+        P::QuietSelfAbort(s) => {
+            let slot: std::sync::Arc<std::sync::Mutex<Option<Box<dyn Fn() + Send>>>> = Default::default();
+            let slot2 = slot.clone();
+            let cmd = Command::new(move |ctx| async move {
+                let _ = areq(&ctx, s, 0).await;
+                if let Some(abort) = slot2.lock().unwrap().as_ref() {
+                    abort();
+                }
+            });
+            let h = cmd.abort_handle();
+            *slot.lock().unwrap() = Some(Box::new(move || h.abort()));
+            cmd
+        }
         P::HandOff(s, t, u) => Command::new(move |ctx| async move {
             let l = areq_owned(ctx.clone(), s, 0);
             let r = areq_owned(ctx.clone(), t, 0);
